@@ -247,7 +247,7 @@ class ProcSim:
                                 sim.killed.append(pgid)
                     return killpg
                 if name == "getpid":
-                    return lambda: 4242
+                    return lambda: 3141592
                 return getattr(os, name)
         return _Os()
 
